@@ -107,5 +107,6 @@ func init() {
 			fam("events-exact", false, map[string]bool{"s3:ObjectCreated:Put": true, "s3:ObjectRemoved:Delete": true, "s3:ObjectTagging:Put": false}, 1902, 30, 600),
 			fam("events-wildcard", false, map[string]bool{"s3:ObjectCreated:*": true, "s3:ObjectRemoved:*": false, "s3:ObjectTagging:*": true}, 1903, 30, 600),
 			fam("events-override", false, map[string]bool{"s3:ObjectCreated:*": true, "s3:ObjectCreated:Copy": false, "s3:ObjectRemoved:*": false, "s3:ObjectRemoved:DeleteObjects": true}, 1904, 30, 600),
+			c19Concurrent,
 		}}
 }
